@@ -488,7 +488,8 @@ def render_one(M, fa):
     ty = fa.d['ty']; v = deref_all(fa.d['v']); kind = fa.d['fk']
     base = ty.lstrip('&')
     if kind == 'display':
-        if base in ('String', 'str', 'Cow<\'_, str>'): return toelems(v)
+        if base.startswith('Cow<') and isinstance(v, Agg) and v.fields: v = deref_all(v.fields[0]); return toelems(v)      # Cow::Borrowed(&str) / Cow::Owned(String) built by the crate itself
+        if base in ('String', 'str', 'Cow<\'_, str>', 'Cow<\'static, str>'): return toelems(v)
         if base in INT_TY and base != 'char':
             if v.sym():
                 if v.w != 64: raise Unsupported("display of symbolic int of width %d" % v.w)
